@@ -22,9 +22,15 @@ def setPositions (l : List α) : List Int → List α → List α
   | p :: ps, v :: vs => setPositions (l.set p.toNat v) ps vs
   | _, _ => l
 
+/-- Delete the items whose index (counted from `i`) is among `ps`. -/
+def delPositionsAux (ps : List Int) : Nat → List α → List α
+  | _, [] => []
+  | i, x :: xs =>
+    if ps.contains (i : Int) then delPositionsAux ps (i + 1) xs
+    else x :: delPositionsAux ps (i + 1) xs
+
 /-- Delete the items at the given positions (extended-slice deletion). -/
-def delPositions (l : List α) (ps : List Int) : List α :=
-  (l.zipIdx.filter (fun xi => !(ps.contains (xi.2 : Int)))).map (·.1)
+def delPositions (l : List α) (ps : List Int) : List α := delPositionsAux ps 0 l
 
 /-- `l[s]` for a slice; error = ValueError (zero step). -/
 def getSlice (l : List α) (s : Slice) : Except Exc (List α) :=
